@@ -300,6 +300,37 @@ def fam_drain(rng):
     return out
 
 
+TRX["stale"] = [
+    {"id": "t1", "iss": "GR", "rcv": "A", "amt": 10, "data": False},
+    {"id": "t2", "iss": "A", "rcv": "B", "amt": 10, "data": False},
+    {"id": "t3", "iss": "B", "rcv": "A", "amt": 0, "data": True},
+    {"id": "t4", "iss": "A", "rcv": "B", "amt": 5, "data": False},
+    {"id": "t5", "iss": "B", "rcv": "A", "amt": 0, "data": True},
+    {"id": "t6", "iss": "B", "rcv": "A", "amt": 0, "data": True},
+    {"id": "t7", "iss": "B", "rcv": "A", "amt": 0, "data": True},
+    {"id": "t8", "iss": "B", "rcv": "B", "amt": 0, "data": True},
+    {"id": "t9", "iss": "B", "rcv": "A", "amt": 0, "data": True},
+]
+SHAPES["stale"] = (["N1"], ["N1", "N2", "GR", "A", "B"], ["N2"], "stale")
+
+
+def fam_stale(rng):
+    """Income checkpointed, read, then the spend checkpointed too: whoever keeps the first value sees funds that are gone.
+    The overspend that follows has to be dropped, with reads of every kind between the truncations."""
+    out = []
+    reads = [{"op": "balance", "n": "N1", "wl": "A"}, {"op": "balance", "n": "N1", "wl": "B"}, {"op": "history", "n": "N1", "wl": "A"}]
+    T = {"op": "truncate", "n": "N1"}
+    for depth in (1, 2):
+        # truncation keeps the `depth` + 1 youngest vertices of a chain: pad accordingly
+        pad1 = [P("N1", "t5", 0)] + ([P("N1", "t3", 0)] if depth == 2 else [])
+        pad2 = [P("N1", "t6", 0), P("N1", "t7", 0)] + ([P("N1", "t8", 0)] if depth == 2 else [])
+        ops = [G(), P("N1", "t1", 2)] + pad1 + [P("N1", "t2", 0), T] + reads      # income of A checkpointed, spend live
+        ops += pad2 + [T, T] + reads                                                # the spend of A checkpointed too
+        ops += [P("N1", "t4", 0), P("N1", "t9", 0), P("N1", "t4", 0)] + reads + [T] + reads
+        out.append(("stale", depth, ops))
+    return out
+
+
 def fam_concurrent(rng):
     """The same transaction racing through the lock boundary in every two-operation schedule."""
     out = []
@@ -513,7 +544,7 @@ PROPS = {
 }
 
 FAMS = {
-    "truncation": lambda rng, tier: fam_truncation(rng) + fam_drain(rng) + fam_trunc_race(rng) + fam_trunc_cancel(rng),
+    "truncation": lambda rng, tier: fam_truncation(rng) + fam_drain(rng) + fam_stale(rng) + fam_trunc_race(rng) + fam_trunc_cancel(rng),
     "concurrent": lambda rng, tier: fam_concurrent(rng),
     "orphans": lambda rng, tier: fam_orphans(rng, 120 if tier == "thorough" else 30),
     "load": lambda rng, tier: fam_load(rng) + [(sh, d, [dict(o, op="netload") if o["op"] == "load" else o for o in ops])
